@@ -23,3 +23,28 @@ Theorem C11_declining_component_invisible : forall l p c, c_accept p = false ->
   snd (consult (inline_table (p :: l) c)) = snd (consult (inline_table l c)).
 Proof. exact declining_component_invisible. Qed.
 Print Assumptions C11_declining_component_invisible.
+
+(* ---------------- conservativity itself, for the model of the parser with extension.GFM
+   (model/GfmI.v; compared with goldmark for all sixteen subsets of the four extensions on every
+   run).  For EVERY source and whatever the other three switches are: switching Strikethrough on
+   does not change the tree of a source without '~'; TaskList, of a source without '['; Table, of
+   a source without '-'; and with all four off the GFM model IS the model of the default parser
+   (so the theorems of C01, C03, C04, C05 about ParseTree hold for it).
+   (proofs/GfmConservative*.v, 3.8 k lines.) *)
+Require Import GM.model.ParseI GM.model.InlineParseX GM.model.GfmI GM.proofs.ParseInv GM.proofs.GfmConservative.
+Theorem C11_strikethrough_conservative : forall xc src, lacks 126 src ->
+  ParseTreeX (with_strike xc true) src = ParseTreeX (with_strike xc false) src.
+Proof. exact strike_conservative. Qed.
+Print Assumptions C11_strikethrough_conservative.
+Theorem C11_tasklist_conservative : forall xc src, lacks 91 src ->
+  ParseTreeX (with_task xc true) src = ParseTreeX (with_task xc false) src.
+Proof. exact task_conservative. Qed.
+Print Assumptions C11_tasklist_conservative.
+(* for Table the sources are byte strings (every element below 256: true of every Go []byte) *)
+Theorem C11_table_conservative : forall xc src, bytes_ok src -> lacks 45 src ->
+  ParseTreeX (with_table xc true) src = ParseTreeX (with_table xc false) src.
+Proof. exact table_conservative_bytes. Qed.
+Print Assumptions C11_table_conservative.
+Theorem C11_no_extension_is_default : forall src, ParseTreeX gfm_none src = ParseTree src.
+Proof. exact none_is_default. Qed.
+Print Assumptions C11_no_extension_is_default.
